@@ -190,8 +190,8 @@ impl From<InvalidDnsNameError> for TlsError {
 impl From<MinTlsVersion> for ProtocolVersions {
     fn from(value: MinTlsVersion) -> Self {
         match value {
-            MinTlsVersion::V1_2 => ProtocolVersions::v12_only(),
-            MinTlsVersion::V1_3 => ProtocolVersions::new().enable_v12().enable_v13(),
+            MinTlsVersion::V1_2 => ProtocolVersions::new().enable_v12().enable_v13(),
+            MinTlsVersion::V1_3 => ProtocolVersions::v13_only(),
         }
     }
 }
